@@ -31,6 +31,8 @@ class ServerSideSocket:
     def __init__(self, conn):
         self.conn = conn
         self._closed = False
+        # an accepted socket is born with the process-wide default time-out
+        conn.timeout = _real_socket.getdefaulttimeout()
 
     def makefile(self, mode="rb", bufsize=-1):
         return _RFile(self.conn)
@@ -57,7 +59,10 @@ class ServerSideSocket:
         self.conn.net.log.ev("net", "server-close", self.conn.cid)
 
     def settimeout(self, t):
-        pass
+        self.conn.timeout = t
+
+    def gettimeout(self):
+        return getattr(self.conn, "timeout", None)
 
     def setsockopt(self, *a):
         pass
@@ -77,8 +82,11 @@ class _RFile:
     def readline(self, limit=-1):
         conn = self.conn
         net = conn.net
-        net.kernel.block(lambda: b"\n" in conn.c2s or conn.client_closed or conn.client_reset,
-                         None, "readline")
+        ok = net.kernel.block(lambda: b"\n" in conn.c2s or conn.client_closed or conn.client_reset,
+                              getattr(conn, "timeout", None), "readline")
+        if not ok:
+            net.log.ev("net", "readline-timeout", conn.cid)
+            raise _real_socket.timeout("timed out")
         if conn.client_reset and b"\n" not in conn.c2s:
             raise ConnectionResetError(104, "Connection reset by peer")
         i = conn.c2s.find(b"\n")
